@@ -29,6 +29,13 @@ CHECKS = {
              "variables (the early-close deadlock the property text describes lives there). Covered: ASGI StreamResponse/SendEventResponse "
              "(1 item general, 3 items with a zero-delay producer; thorough: 2 items + trailing producer delay), WSGI StreamResponse/NextResponse. "
              "asyncio's own scheduler code runs for real on a virtual clock; ticks bounded (delays 0..20, ping 1..20, disconnect 0..60)."),
+    "C08": dict(
+        technique="z3 regex-language lemmas on the live convertor patterns; fork-on-branch symbolic execution of the real Route/Router over fully symbolic paths (ReShim) against a first-match oracle built from the statement's type languages; decided arithmetic for int/date/decimal conversion and round trip",
+        design_ref="DESIGN.md §4 C08",
+        note="Trusted: z3 (sequence/regex theory for the lemmas and short-path cross-check), CPython, forksym/ReShim, the text/integer models of "
+             "Decimal, date and UUID (each path's model is re-run on the unshimmed code). Route tables are recipes; paths <=6/<=8 symbolic chars "
+             "(<= U+2FFFF) plus a 10-char date/decimal segment; int <=4/<=6 digits; decimals <=3+3/<=4+4 digits. A date placeholder is taken to "
+             "stand only for text that denotes a calendar date."),
     "C09": dict(
         technique="fork-on-branch symbolic execution of the real Subpaths/Hosts dispatch over symbolic characters (z3), oracle as z3 formulas / z3 regex-language membership",
         design_ref="DESIGN.md §4 C09",
